@@ -81,6 +81,19 @@ CHECKS = {
         "not modelled - the property is tested on every installed component of all jobs in reachable states (exploration, not proof).",
    technique="Coq proof (case analysis over all modelled reducers) over a hand-written executable model + Coq-evaluated correspondence with the real reducers + implementation-side search on all installed components",
    design="7 C07"),
+ "C08": dict(
+   text="Coq theorems: an ownership/effect checker `safe` over an effect-skeleton language is proved sound (a skeleton it accepts never "
+        "modifies an object that existed before the call - the state, the payload, self, anything reachable from them -, never writes "
+        "self and performs no impure step, for all heaps, branch outcomes, loop counts); the skeletons of all 141 reducers, 117 views and "
+        "221 callee summaries are REGENERATED from component/{common,specific}/*.py, trait/impl.py, entity.py on every run and `safe` is "
+        "evaluated on them in Coq (vm_compute); call summaries are themselves justified on the callee's skeleton; the pre-repair "
+        "FullMetalBarrage body and 17 other impure shapes are rejected. 'Same in, same out' follows (no impure step, no self write, no "
+        "input mutation) and is additionally tested by calling every reducer twice.",
+   note="Trusted: Coq kernel/vm_compute; the translator tools/tr_effects.py (classification of Python statements into effects; validated on "
+        "every run by runtime monitors that dump inputs before/after every reducer and view of every installed component on all jobs); "
+        "pydantic/deepcopy semantics.",
+   technique="Coq proof (soundness of an ownership checker over an instrumented heap semantics) + checker evaluated in Coq on skeletons generated from the source (translator) + runtime purity monitor",
+   design="7 C08"),
  "C09": dict(
    text="Coq theorems: for every well-formed state and all a, b >= 0, elapse a then b equals elapse a+b for the Periodic scheduler, the "
         "Consumable stack regeneration, the Keydown generator and the mob's DOT tracker (entity models faithful to component/entity.py and "
